@@ -235,7 +235,9 @@ def main(tier, seed):
         "distinct_nontrivial": len(sigs),
         "rule": "one evaluation = one whole generation (or one regrid history) under a "
                 "seeded worker schedule, refine-method failure pattern short of exhaustion "
-                "and randomised retry/tuning knobs; the written grid is then judged by "
+                "and randomised retry/tuning knobs; every grid file that gets written - in "
+                "a regrid history also the ones written after a regrid that raised "
+                "half-way, naturally or through faults.RegridRefusal - is judged by "
                 "O-psi at all four staggered locations. Distinct non-trivial = distinct "
                 "(entry point, topology, np, fault kind, refine_methods, orthogonality) or "
                 "distinct regrid-history shapes among grids that were evaluated.",
